@@ -1473,6 +1473,34 @@ func ruleCounterDirection(r *Run, id string, pkgs ...string) {
 		if o := top.Object(); o != nil {
 			fdir = dirOfFunc(canon(o))
 		}
+		if fn.Parent() != nil && dirOfFunc(top.Name()) == "" {
+			// a goroutine body inside a constructor: its direction is that of the I/O calls it makes
+			fdir = ""
+			rx, tx := false, false
+			allInstrs(fn, func(ins ssa.Instruction) {
+				cc := instrCall(ins)
+				if cc == nil {
+					return
+				}
+				nm := ""
+				if cc.IsInvoke() {
+					nm = cc.Method.Name()
+				} else if cf := cc.StaticCallee(); cf != nil {
+					nm = cf.Name()
+				}
+				switch d := strings.ToLower(nm); {
+				case strings.HasPrefix(d, "read"), strings.HasPrefix(d, "receive"), strings.HasPrefix(d, "accept"), strings.HasPrefix(d, "decode"):
+					rx = true
+				case strings.HasPrefix(d, "write"), strings.HasPrefix(d, "send"), strings.HasPrefix(d, "encode"):
+					tx = true
+				}
+			})
+			if rx && !tx {
+				fdir = "rx"
+			} else if tx && !rx {
+				fdir = "tx"
+			}
+		}
 		isAccessor := fn.Parent() == nil && fn.Signature.Recv() != nil && dirOfName(top.Name()) != "" && top.Object() != nil && top.Object().Exported()
 		name := fnName(fn)
 		k := 0
@@ -1881,5 +1909,160 @@ func wakeHelpers(p *Prog) map[*ssa.Function]wakeHelper {
 			}
 		})
 	}
+	return out
+}
+
+// ruleDefaultsFillOnlyUnset: a package-level default (a global whose name starts with default…) may be stored into a
+// configuration field only where that very field was found unset: on the zero/nil edge of a test of the same field.
+// Anything else — the test of a sibling field, an inverted or shifted comparison — replaces values the application
+// configured, or leaves unset ones at zero.
+func ruleDefaultsFillOnlyUnset(r *Run, id string, pkgs ...string) {
+	r.Begin(id, "defaults only fill unset fields: in "+strings.Join(pkgs, ", ")+", a store of a default… global into a struct field (outside composite literals of constructors) is dominated by the zero/nil edge of a test of that same field, and the global's name ends with the field's name", 2)
+	p := r.P
+	n := 0
+	for _, fn := range p.Funcs {
+		okPkg := false
+		for _, pk := range pkgs {
+			if fnPkgPath(fn) == modPath+pk {
+				okPkg = true
+			}
+		}
+		if !okPkg || fn.Blocks == nil || fn.Name() == "init" {
+			continue
+		}
+		k := 0
+		allInstrs(fn, func(ins ssa.Instruction) {
+			st, ok := ins.(*ssa.Store)
+			if !ok {
+				return
+			}
+			fa, isFA := st.Addr.(*ssa.FieldAddr)
+			if !isFA {
+				return
+			}
+			if _, isAlloc := fa.X.(*ssa.Alloc); isAlloc {
+				if a := fa.X.(*ssa.Alloc); a.Comment == "complit" {
+					return
+				}
+			}
+			fk := fieldKeyOfAddr(fa)
+			f := fieldOf(fa.X.Type(), fa.Field)
+			if fk == "" || f == nil {
+				return
+			}
+			var def string
+			for _, l := range p.Leaves(st.Val, provOpts{}) {
+				if strings.HasPrefix(l, "global:") && strings.Contains(strings.ToLower(l[strings.LastIndexByte(l, '.')+1:]), "default") {
+					def = l[7:]
+				}
+				if strings.HasPrefix(l, "addr:") && strings.Contains(strings.ToLower(l), ".default") {
+					def = l[5:]
+				}
+			}
+			if def == "" {
+				return
+			}
+			n++
+			k++
+			name := fnName(fn)
+			// zero/nil edge of a test of the same field dominates the store
+			guarded := false
+			allInstrs(fn, func(x ssa.Instruction) {
+				ifs, isIf := x.(*ssa.If)
+				if !isIf {
+					return
+				}
+				bo, isBo := ifs.Cond.(*ssa.BinOp)
+				if !isBo || (bo.Op != token.EQL && bo.Op != token.NEQ) {
+					return
+				}
+				var other ssa.Value
+				if isNilConst(bo.Y) {
+					other = bo.X
+				} else if isNilConst(bo.X) {
+					other = bo.Y
+				} else if c, isC := bo.Y.(*ssa.Const); isC && c.Value != nil && (c.Value.String() == "0" || c.Value.String() == `""`) {
+					other = bo.X
+				} else if c, isC := bo.X.(*ssa.Const); isC && c.Value != nil && (c.Value.String() == "0" || c.Value.String() == `""`) {
+					other = bo.Y
+				}
+				if other == nil {
+					return
+				}
+				// the tested value is that same field (possibly through a method such as Seconds(), a load or a conversion)
+				if got := fieldsRead(other, 5); len(got) != 1 || !got[fk] {
+					return
+				}
+				zero := ifs.Block().Succs[0]
+				if bo.Op == token.NEQ {
+					zero = ifs.Block().Succs[1]
+				}
+				if edgeDominates(ifs.Block(), zero, st.Block()) {
+					guarded = true
+				}
+			})
+			nameOK := strings.HasSuffix(strings.ToLower(def), strings.ToLower(canon(f)))
+			r.Check(fmt.Sprintf("%s default#%d into %s", name, k, fk), guarded && nameOK, posOf(p, st), name, fmt.Sprintf("%s is stored into %s; on the zero edge of a test of that field: %v; the default is the one named after the field: %v", def, fk, guarded, nameOK))
+		})
+	}
+	if n == 0 {
+		r.Undecided("default stores", "none found")
+	}
+}
+
+// fieldsRead: the struct fields (by key) that v is computed from, following loads, field selections, conversions and
+// the receiver/arguments of calls up to depth.
+func fieldsRead(v ssa.Value, depth int) map[string]bool {
+	out := map[string]bool{}
+	seen := map[ssa.Value]bool{}
+	var walk func(v ssa.Value, d int)
+	walk = func(v ssa.Value, d int) {
+		if v == nil || seen[v] || d < 0 {
+			return
+		}
+		seen[v] = true
+		switch x := v.(type) {
+		case *ssa.FieldAddr:
+			if fk := fieldKeyOfAddr(x); fk != "" {
+				out[fk] = true
+			}
+			return
+		case *ssa.Field:
+			if f := fieldOf(x.X.Type(), x.Field); f != nil {
+				if owner := namedOf(x.X.Type()); owner != nil {
+					out[fieldKey(owner, f)] = true
+					return
+				}
+			}
+			walk(x.X, d-1)
+		case *ssa.UnOp:
+			walk(x.X, d-1)
+		case *ssa.Convert:
+			walk(x.X, d-1)
+		case *ssa.ChangeType:
+			walk(x.X, d-1)
+		case *ssa.Call:
+			for _, a := range x.Call.Args {
+				walk(a, d-1)
+			}
+			if x.Call.IsInvoke() {
+				walk(x.Call.Value, d-1)
+			}
+		case *ssa.Phi:
+			for _, e := range x.Edges {
+				walk(e, d-1)
+			}
+		case *ssa.Alloc:
+			// a spilled value receiver: what was stored into it
+			if x.Referrers() != nil {
+				for _, ref := range *x.Referrers() {
+					if st, ok := ref.(*ssa.Store); ok && st.Addr == ssa.Value(x) {
+						walk(st.Val, d-1)
+					}
+				}
+			}
+		}
+	}
+	walk(v, depth)
 	return out
 }
